@@ -2,12 +2,14 @@ from props import COMMON_TB
 
 ID = "C09"
 PROP = {
-    "modules": ["Gnmi.Props.C09"],
+    "modules": ["Gnmi.Props.C09", "Gnmi.Props.C09Children"],
     "theorems": ["Gnmi.C09." + t for t in [
         "history_refinement", "reachable_wf", "step_refines", "add_refines", "add_fails_iff",
         "content_prefixFree", "query_spec", "get_spec", "get_none_spec", "walkSorted_content",
         "walkSorted_sorted", "delete_eq_query", "delete_rest", "delete_wf", "delete_empty",
-        "delete_through_leaf", "add_after_delete", "readd_after_delete"]],
+        "delete_through_leaf", "add_after_delete", "readd_after_delete",
+        "children_spec", "children_refines", "children_history", "children_history_sorted",
+        "childrenOf_nodup", "mem_childrenOf", "children_nonempty_iff_branch"]],
     "components": [
         {"c": "ct", "quick": {"n": 3000, "exhaustive": True}, "thorough": {"n": 40000, "exhaustive": True, "seeds": 4}},
     ],
@@ -17,7 +19,7 @@ PROP = {
     "assumptions": ["stored values are non-nil (the API uses nil as 'absent')",
                     "Leaf.Update is applied to leaf nodes only", "single goroutine"],
     "manifest": {
-        "level_text": "Lean 4 theorems: the trie model refines a prefix-free map for every operation sequence (history_refinement) with the single-operation laws (add/query/delete/walkSorted) proved by mutual structural induction; the model is tied to ctree/tree.go by a differential correspondence check (exhaustive small scope + seeded random sequences over the whole exported API).",
+        "level_text": "Lean 4 theorems: the trie model refines a prefix-free map for every operation sequence (history_refinement) with the single-operation laws (add/query/delete/walkSorted) proved by mutual structural induction; the model is tied to ctree/tree.go by a differential correspondence check (exhaustive small scope + seeded random sequences over the whole exported API). Children (Props/C09Children.lean): after every history, at every path, Get(p).Children() equals the spec's childrenAt of the refined map as a duplicate-free set and as a sorted list (children_history, children_history_sorted); the ct component's `children` operation checks the same on the real code.",
         "level_note": "Trusted: Lean kernel (axioms propext, Quot.sound, Classical.choice only), the hand-written model Model/CTree.lean as validated by the correspondence harness, Go runtime. Assumes non-nil values, single goroutine.",
         "technique": "Lean 4 proof (refinement by mutual structural induction) + model/implementation correspondence",
         "design_ref": "DESIGN.md §8 C09",
